@@ -606,6 +606,15 @@ class FnWeaver:
             k = s.next_code(k)
         return res
 
+    def loop_by_header(self, n, rx):
+        """ordinal of the loop whose header (text between the loop keyword and its `{`) matches `rx`; `n` when there is no such hint.
+        Lets a template address a loop by what it iterates over, so that a loop inserted before it does not shift the hints (seed C14e)."""
+        if not rx:
+            return n
+        s = self.src
+        hits = [i + 1 for i, (kw, ob) in enumerate(self.loops()) if re.search(rx, self.text[s.toks[kw][1]:s.toks[ob][1]])]
+        return hits[0] if len(hits) == 1 else 0
+
     def add_loop_spec(self, n, lines, tline, iter_name=None):
         ls = self.loops()
         if n < 1 or n > len(ls):
@@ -1324,10 +1333,13 @@ def weave(unit_path):
                 elif sd == 'loop':
                     la = sarg.split()
                     itn = None
+                    over = None
                     for x in la[1:]:
                         if x.startswith('iter='):
                             itn = x[5:]
-                    fw.add_loop_spec(int(la[0]), blk, blk_line, itn)
+                        if x.startswith('over='):
+                            over = x[5:]
+                    fw.add_loop_spec(fw.loop_by_header(int(la[0]), over), blk, blk_line, itn)
                 elif sd == 'forwhile':
                     fw.desugar_for_continue(int(sarg))
                 elif sd == 'arrayloop':
